@@ -1,6 +1,6 @@
 #!/bin/sh
-# tools/seed_verify.sh <Cxx> <A|B> : confirm a sub-agent's mutant in its scratch worktree, then keep it under seeded/
-p=$1; m=$2; wt=/tmp/wt/$p; s=$wt/_seed
+# tools/seed_verify.sh <Cxx> <A|B> [label] : confirm a sub-agent's mutant in its scratch worktree, then keep it under seeded/
+p=$1; m=$2; label=${3:-$2}; wt=/tmp/wt/$p; s=$wt/_seed
 git -C $wt checkout -- src
 cd $wt
 PYTHONPATH=$wt/src /venv/bin/python $s/${m}_demo.py >/dev/null 2>&1; clean=$?
@@ -11,6 +11,6 @@ git -C $wt checkout -- src
 echo "$p/$m demo_clean=$clean demo_mutant=$mut tests: $tests"
 case "$tests" in *"4 failed, 287 passed"*) ok=1;; *) ok=0;; esac
 if [ $clean -eq 0 ] && [ $mut -ne 0 ] && [ $ok -eq 1 ]; then
-  d=/verif/seeded/${p}_$m; mkdir -p $d; cp $s/$m.diff $d/patch.diff; cp $s/${m}_demo.py $d/demo.py
+  d=/verif/seeded/${p}_$label; mkdir -p $d; cp $s/$m.diff $d/patch.diff; cp $s/${m}_demo.py $d/demo.py
   echo "confirmed -> $d"
 else echo "NOT confirmed"; fi
